@@ -589,7 +589,7 @@ def run(tier: str, seed: int, replay=None) -> int:
               "_scen_bn2 (one BatchNorm object behind two layers, own BatchNorm at a reuse site, two BatchNorms in a row; chains and "
               "two-stream networks with a second input tensor); every TLC scenario gets a random subset of the rarely used public "
               "constructor keywords (coverage.public_keywords lists every keyword found in the signatures and the ones not exercised); "
-              + ("stratified samples of (1)-(3b): 180 / 180 / 260 / 240" if quick else "stratified 8000 of (1), all of (2), stratified 5000 of (3) incl. "
+              + ("stratified samples of (1)-(3b): 180 / 180 / 260 / 240" if quick else "stratified 5000 of (1), all of (2), stratified 4000 of (3) and 2500 + 2500 of (3b) incl. "
                  "every distinct history per method")
               + "; (4) seeded random architectures of the same grammar with up to ~12 nodes, widths 2..6, kernels 1..5, random "
               "configurations, Dropout, excluded layers followed by BatchNorm, random histories; (5) hand-written shapes of the "
@@ -667,23 +667,23 @@ def run(tier: str, seed: int, replay=None) -> int:
         c = tlc.parse_value(r["cfg_txt"])
         hpool.setdefault((c["method"], c["mode"]), []).append(list(tlc.parse_value(r["hist_txt"])))
     scs: List[Dict[str, Any]] = []
-    for r in _stratified(raws["scen"], 180 if quick else 8000, rng):
+    for r in _stratified(raws["scen"], 180 if quick else 5000, rng):
         c = tlc.parse_value(r["cfg_txt"])
         scs.append(_materialize(r, rng, "tlc-structure", hist=rng.choice(hpool[(c["method"], c["mode"])])))
     for r in _stratified(raws["scen_cfg"], 180 if quick else 0, rng):
         scs.append(_materialize(r, rng, "tlc-configuration"))
     # BatchNorm sharing patterns (chains and two-stream networks), each with a TLC-enumerated history
-    for r in _stratified(raws["scen_bn"], 100 if quick else 0, rng) + _stratified(raws["scen_bn2"], 140 if quick else 4000, rng):
+    for r in _stratified(raws["scen_bn"], 100 if quick else 2500, rng) + _stratified(raws["scen_bn2"], 140 if quick else 2500, rng):
         c = tlc.parse_value(r["cfg_txt"])
         scs.append(_materialize(r, rng, "tlc-batchnorm-sharing", hist=rng.choice(hpool[(c["method"], c["mode"])])))
     # every distinct history at least once per method; beyond that stratified by (architecture features, history)
     for r in hraws:
         r["hkey"] = (tlc.parse_value(r["cfg_txt"])["method"], r["hist_txt"])
-    scs += [_materialize(r, rng, "tlc-history") for r in _stratified(hraws, 260 if quick else 5000, rng, key="hkey")]
+    scs += [_materialize(r, rng, "tlc-history") for r in _stratified(hraws, 260 if quick else 4000, rng, key="hkey")]
     R.extra["tlc_scenarios_executed"] = len(scs)
     R.extra["distinct_histories_executed"] = len({(s["method"], tuple(s["hist"])) for s in scs})
     # ---------------------------------------------------------------- code -> spec: random scenarios beyond the bounds
-    rs = [random_scenario(rng, hl) for _ in range(180 if quick else 3000)]
+    rs = [random_scenario(rng, hl) for _ in range(180 if quick else 2500)]
     R.extra["random_scenarios"] = len(rs)
     _execute_and_validate(R, fixed_scenarios() + scs + rs, "fixed + tlc-enumerated + random")
 
